@@ -99,8 +99,11 @@ def h_history(ctx, hist, fr_max, arc_max, aa0, ask, ackpl, send_only, ard="sym",
         ctx.check(dt <= total_attempts * (ard_ns + 500_000),
                   "returns within the time bounded by the retry configuration")
 
+    mix = send_only == "mix"
     for step, call in enumerate(hist):
         t0, air0, sent0 = clock.now, len(link.on_air), len(radio.sent)
+        if mix:
+            send_only = bool(ctx.choice("send_only%d" % step, 2))
         if call == "send":
             fr = ctx.int("fr%d" % step, 0, fr_max)
             buf = ctx.bytes("buf%d" % step, 2)
@@ -131,7 +134,9 @@ def jobs(tier):
              (True, False, 2, False), (True, False, 1, True)]
     ards = (250, 1500, 4000)
     if tier == "quick":
+        mixm = [(True, False, 2, "mix")]
         plan = [  # history, fr_max, arc_max, modes, symbolic ard?
+            (("send", "send"), 0, 2, mixm, False), (("send", "resend"), 0, 2, mixm, False), (("send", "send", "send"), 0, 1, mixm, False),
             (("send",), 1, 15, modes, False), (("send",), 3, 5, modes, False), (("send",), 1, 3, [base, modes[4]], True),
             (("send", "send"), 1, 4, modes, False), (("send", "resend"), 1, 4, modes, False),
             (("sendlist",), 1, 4, modes, False), (("resend",), 0, 3, [base], False),
@@ -139,7 +144,10 @@ def jobs(tier):
             (("send", "send", "resend"), 0, 2, [base], False), (("send", "resend"), 0, 2, [base], True),
         ]
     else:
+        mixm = [(True, False, 2, "mix"), (True, False, 1, "mix")]
         plan = [
+            (("send", "send"), 1, 7, mixm, False), (("send", "resend"), 1, 7, mixm, False), (("send", "send", "send"), 1, 3, mixm, False),
+            (("sendlist", "send"), 0, 3, mixm, False), (("send", "resend", "send"), 0, 3, mixm, False),
             (("send",), 3, 15, modes, False), (("send",), 3, 7, modes, True),
             (("send", "send"), 3, 7, modes, False), (("send", "send"), 1, 15, modes, False),
             (("send", "resend"), 3, 7, modes, False), (("send", "resend"), 1, 15, modes, False),
@@ -174,7 +182,7 @@ META = {
                  "send,send,resend; symbolic: arc 0..15 (0..3 / 0..2 for depth 3), ard 250..4000, force_retry 0..3 (single send) "
                  "/ 0..1 (depth 2) / 0 (depth 3), one acknowledgement boolean per on-air attempt (up to 64 per call), 2 "
                  "payload bytes per payload, ACK payload bytes; enumerated: auto-ack on pipe 0 on/off, ask_no_ack, ACK "
-                 "payload of 0/1/2 bytes, send_only",
+                 "payload of 0/1/2 bytes, send_only (also chosen per call)",
         "thorough": "as quick with force_retry 0..3 at depth 2, depth-3 histories with arc 0..7 and force_retry 0..1, "
                     "and a radio whose outcome becomes visible 1 or 2 SPI transactions late",
     },
